@@ -115,7 +115,12 @@ def _classes():
         q: Any
         tag: int = 0
 
-    _CLS.update(P=P, V1=V1, V2=V2)
+    @dataclass(eq=False)
+    class Q:          # NOT an instance of P: let(P, ...) filters it out of the domain
+        a: int = 0
+        ident: int = -100
+
+    _CLS.update(P=P, V1=V1, V2=V2, Q=Q)
     return _CLS
 
 
@@ -136,6 +141,21 @@ def _objects(W, A):
     return objs
 
 
+def _with_foreign(vals: list, nf: int) -> list:
+    """interleave nf objects of a foreign class (removed by let's isinstance filter) with the domain elements"""
+    if not nf:
+        return list(vals)
+    Q = _classes()["Q"]
+    out = []
+    for j, v in enumerate(vals):
+        if j < nf:
+            out.append(Q(0, -100 - j))
+        out.append(v)
+    for j in range(len(vals), nf):
+        out.append(Q(0, -100 - j))
+    return out
+
+
 def _domain(vals: list, how: str):
     if how == "gen":
         return (v for v in vals)
@@ -151,14 +171,16 @@ def impl_cache(d) -> List[int]:
     from krrood.entity_query_language.entity import let
     P = _classes()["P"]
     objs = _objects([d["domain"]], [])
-    x = let(P, _domain([objs[i] for i in d["domain"]], d.get("dom", "list")), name="x")
+    x = let(P, _domain(_with_foreign([objs[i] for i in d["domain"]], d.get("foreign", 0)), d.get("dom", "list")), name="x")
     hi = x._domain_
     handles: List[Any] = []
     log: List[int] = []
     for o in d["ops"]:
         if o[0] == "C":
+            # Variable._evaluate__ iterates the domain only if it is truthy ("elif self._domain_:"), otherwise it raises
+            # ValueError("Cannot evaluate variable."): a variable that was given a domain must stay evaluable
+            log.append(MARK if bool(hi) else -4)
             handles.append(iter(hi))
-            log.append(MARK)
             continue
         h = o[1]
         if h >= len(handles):
@@ -198,7 +220,8 @@ def build_queries(d):
     C = _classes()
     objs = _objects(d["W"], d["A"])
     doms = d.get("doms") or ["list"] * len(d["W"])
-    vars_ = [let(C["P"], _domain([objs[i] for i in w], doms[k]), name=f"v{k}") for k, w in enumerate(d["W"])]
+    foreign = d.get("foreign") or [0] * len(d["W"])
+    vars_ = [let(C["P"], _domain(_with_foreign([objs[i] for i in w], foreign[k]), doms[k]), name=f"v{k}") for k, w in enumerate(d["W"])]
     shared_nodes: Dict[str, Any] = {}
     out = []
     for qd in d["queries"]:
@@ -295,7 +318,8 @@ def run_impl(d):
 
 # ---- shapes outside the modelled fragment: implementation vs isolated result of a fresh query
 def _extra_query(shape, vars_, V1):
-    from krrood.entity_query_language.entity import entity, set_of, or_, not_, and_, inference
+    import operator as _op
+    from krrood.entity_query_language.entity import entity, set_of, or_, not_, and_, inference, exists, for_all
     from krrood.entity_query_language.quantify_entity import an
     from krrood.entity_query_language.conclusion import Add
     from krrood.entity_query_language.rule import refinement
@@ -310,6 +334,17 @@ def _extra_query(shape, vars_, V1):
         return an(set_of([x, y], or_(x.a == shape[1], y.a == shape[2]))), lambda r: [r[x].ident, r[y].ident]
     if name == "andnot":
         return an(entity(x, and_(x.a >= shape[1], not_(x.a == shape[2])))), lambda r: [r.ident]
+    cmp_ = [_op.lt, _op.le, _op.eq, _op.ge][shape[1] % 4] if len(shape) > 1 and isinstance(shape[1], int) else _op.lt
+    if name == "exists":          # x such that some y stands in relation to it: one result per x, whichever y witnesses it
+        return an(entity(x, exists(y, cmp_(y.a, x.a)))), lambda r: [r.ident]
+    if name == "exists_and":
+        return an(entity(x, and_(x.a >= shape[2], exists(y, cmp_(y.a, x.a))))), lambda r: [r.ident]
+    if name == "exists2":         # exists below a join: two other variables
+        return an(set_of([x, y], exists(y, cmp_(x.a, y.a)))), lambda r: [r[x].ident]
+    if name == "forall":
+        return an(entity(x, for_all(y, cmp_(y.a, x.a)))), lambda r: [r.ident]
+    if name == "not_exists":
+        return an(entity(x, not_(exists(y, cmp_(y.a, x.a))))), lambda r: [r.ident]
     if name == "truthy":
         return an(entity(x, x.a)), lambda r: [r.ident]
     if name == "andtruthy":
@@ -333,9 +368,25 @@ def _extra_build(d):
     return [_extra_query(s, vars_, C["V1"]) for s in d["shapes"]]
 
 
+def _rows_or_exc(q, ext) -> List[Any]:
+    rows: List[Any] = []
+    try:
+        for r in q.evaluate():
+            rows.append(ext(r))
+    except BaseException as e:  # noqa
+        rows.append(_exc_code(e))
+    return rows
+
+
 def impl_extra(d):
-    """-> [log of the schedule, isolated rows per iterator (each on a fresh set of variables and queries)]"""
+    """-> [log of the schedule, isolated rows per iterator (each on a fresh set of variables and queries), warm-up rows]"""
     qs = _extra_build(d)
+    warm = []
+    if d.get("warm"):
+        # one complete evaluation of every query object first: all domains are cached afterwards, so the cache itself
+        # cannot make live iterators interfere any more (C03_cache_warm_any_schedule)
+        for qi in sorted(set(d["its"])):
+            warm.append(_rows_or_exc(*qs[qi]))
     its = [[qs[qi][0].evaluate(), qs[qi][1]] for qi in d["its"]]
     log: List[Any] = []
     for o in d["ops"]:
@@ -352,9 +403,8 @@ def impl_extra(d):
             log.append(_exc_code(e))
     iso = []
     for qi in d["its"]:
-        q, ext = _extra_build(d)[qi]
-        iso.append([ext(r) for r in q.evaluate()])
-    return [log, iso]
+        iso.append(_rows_or_exc(*_extra_build(d)[qi]))
+    return [log, iso, warm]
 
 
 def extra_expected(d, iso) -> List[Any]:
@@ -375,20 +425,24 @@ def extra_expected(d, iso) -> List[Any]:
 
 
 # ------------------------------------------------------------------ class predicates (Python side)
-def _live_overlap(d, share_var) -> bool:
-    """two iterators are live (started, not exhausted/closed as far as the schedule can tell) at the same time
-    and their queries share a variable"""
+def _live_overlap(d, share_var, log=None) -> bool:
+    """two iterators are live (started, not closed, and -- when the observed log is given -- not yet ended with
+    StopIteration or an exception) at the same time and their queries share a variable"""
     started, dead = set(), set()
     n = len(d["its"])
-    for o in d["ops"]:
+    for k, o in enumerate(d["ops"]):
         i = o[1]
         if o[0] == "X":
             dead.add(i)
             continue
+        if i in dead:
+            continue
         started.add(i)
         for j in started - dead:
-            if j != i and i not in dead and share_var(i, j):
+            if j != i and share_var(i, j):
                 return True
+        if log is not None and k < len(log) and isinstance(log[k], int):
+            dead.add(i)       # this step ended the iterator (StopIteration or an exception)
     return False
 
 
@@ -419,12 +473,12 @@ def cache_class_py(d, log) -> List[str]:
     return cls
 
 
-def sched_class(d) -> List[str]:
+def sched_class(d, log=None) -> List[str]:
     cls = []
     if any(len(set(w)) != len(w) for w in d["W"]):
         cls.append("K_dup")
     qv = [query_vars(d["queries"][qi]) for qi in d["its"]]
-    if _live_overlap(d, lambda i, j: bool(qv[i] & qv[j])):
+    if _live_overlap(d, lambda i, j: bool(qv[i] & qv[j]), log):
         cls.append("K_interleave")
     return cls
 
@@ -471,6 +525,12 @@ def gen_cache_cases(tier, rng) -> List[dict]:
         for n in range(0, depth + 1):
             for w in itertools.product(alphabet, repeat=n):
                 out.append({"kind": "cache", "domain": dom, "ops": [["C"]] + [list(o) for o in w], "src": "exhaustive"})
+    # the EMPTY domain, given as an empty list and as a list that let()'s isinstance filter empties
+    for foreign, how in ((0, "list"), (2, "list"), (0, "gen"), (1, "tuple")):
+        for n in range(0, (4 if tier == "quick" else 6) + 1):
+            for w in itertools.product(alphabet, repeat=n):
+                out.append({"kind": "cache", "domain": [], "foreign": foreign, "dom": how,
+                            "ops": [["C"]] + [list(o) for o in w], "src": "exhaustive-empty"})
     n_rand = 2500 if tier == "quick" else 20000
     for _ in range(n_rand):
         size = rng.randint(0, 5)
@@ -507,15 +567,20 @@ def gen_cache_cases(tier, rng) -> List[dict]:
             else:
                 ops.append(["N", rng.randint(0, created - 1)])
         out.append({"kind": "cache", "domain": dom, "ops": ops, "dom": rng.choice(["list", "gen", "tuple", "iter"]),
-                    "src": "random-" + mode})
+                    "foreign": rng.randint(1, 2) if rng.chance(0.2) else 0, "src": "random-" + mode})
     return out
 
 
-def gen_world(rng, nvars, maxsize, dup=False):
+def gen_foreign(rng, W) -> List[int]:
+    """how many foreign (filtered-out) objects to put into each let() domain; empty domains get some more often"""
+    return [(rng.randint(1, 2) if rng.chance(0.5 if not w else 0.15) else 0) for w in W]
+
+
+def gen_world(rng, nvars, maxsize, dup=False, p_empty=0.12):
     W, A = [], []
     nid = 10
     for _ in range(nvars):
-        n = rng.randint(1, maxsize)
+        n = 0 if rng.chance(p_empty) else rng.randint(1, maxsize)
         w = list(range(nid, nid + n))
         nid += 10
         for i in w:
@@ -553,8 +618,29 @@ def gen_query(rng, vars_avail, allow_free_sel=True):
     return {"sel": sel, "conds": conds, "form": form}
 
 
-def gen_hist_cases(tier, rng) -> List[dict]:
+def empty_hist_cases() -> List[dict]:
+    """a variable without any value of its type, evaluated repeatedly, alone and inside joins (outer and inner position)"""
     out = []
+    A = [[10, 0], [11, 1], [12, 2]]
+    q_single = {"sel": [0], "conds": [["C", 0, "ge", 0]], "form": "entity"}
+    q_join_inner = {"sel": [1, 0], "conds": [["C", 1, "ge", 0], ["V", 0, "le", 1]], "form": "set_of"}   # v1 outer, empty v0 inner
+    q_join_outer = {"sel": [0, 1], "conds": [["V", 0, "le", 1]], "form": "set_of"}                     # empty v0 outer
+    q_free_sel = {"sel": [1, 0], "conds": [["C", 1, "ge", 1]], "form": "set_of"}                        # empty v0 only selected
+    q_other = {"sel": [1], "conds": [["C", 1, "ge", 1]], "form": "entity"}
+    for foreign in ([0, 0], [2, 0], [1, 1]):
+        for doms in (["list", "list"], ["gen", "tuple"]):
+            base = {"kind": "hist", "W": [[], [10, 11, 12]], "A": A, "foreign": foreign, "doms": doms, "src": "empty-explicit"}
+            out.append(dict(base, queries=[q_single], evals=[0, 0, 0]))
+            out.append(dict(base, queries=[q_join_inner], evals=[0, 0]))
+            out.append(dict(base, queries=[q_join_outer], evals=[0, 0, 0]))
+            out.append(dict(base, queries=[q_free_sel], evals=[0, 0]))
+            out.append(dict(base, queries=[q_single, q_other, q_join_inner], evals=[1, 0, 2, 0, 1, 2]))
+            out.append(dict(base, queries=[q_single, dict(q_single, form="set_of")], evals=[0, 1, 0], share_subexpr=True))
+    return out
+
+
+def gen_hist_cases(tier, rng) -> List[dict]:
+    out = empty_hist_cases()
     n = 1200 if tier == "quick" else 8000
     for k in range(n):
         nvars = rng.randint(1, 3)
@@ -574,7 +660,7 @@ def gen_hist_cases(tier, rng) -> List[dict]:
         evals = [rng.randint(0, len(queries) - 1) for _ in range(rng.randint(2, 4))]
         if rng.chance(0.5):
             evals = [evals[0]] + evals  # make sure something is re-evaluated
-        out.append({"kind": "hist", "W": W, "A": A, "queries": queries, "evals": evals,
+        out.append({"kind": "hist", "W": W, "A": A, "queries": queries, "evals": evals, "foreign": gen_foreign(rng, W),
                     "doms": [rng.choice(["list", "gen", "tuple"]) for _ in W],
                     "share_subexpr": rng.chance(0.3)})
     return out
@@ -692,8 +778,51 @@ def gen_sched_cases(tier, rng) -> List[dict]:
                     ops.append(["N", rng.randint(0, len(its) - 1)])
         out.append({"kind": "sched", "W": W_, "A": A_, "queries": qs, "its": its, "ops": ops, "share": mode,
                     "share_subexpr": mode == "shared-subexpr", "close": rng.choice(["close", "del"]),
+                    "foreign": gen_foreign(rng, W_),
                     "doms": [rng.choice(["list", "gen", "tuple"]) for _ in W_], "src": "random-" + style})
+    out += empty_and_warm_sched_cases(tier)
     return out
+
+
+def empty_and_warm_sched_cases(tier) -> List[dict]:
+    out = []
+    A = [[10, 0], [11, 1], [12, 2]]
+    # (5) a variable without values: the same query object evaluated again and again (sequentially: inside F), and
+    #     nested inside another query's loop
+    q_single = {"sel": [0], "conds": [["C", 0, "ge", 0]], "form": "entity"}
+    q_join = {"sel": [1, 0], "conds": [["C", 1, "ge", 0], ["V", 0, "le", 1]], "form": "set_of"}
+    q_other = {"sel": [1], "conds": [["C", 1, "ge", 1]], "form": "entity"}
+    for foreign in ([0, 0], [2, 0]):
+        base = {"kind": "sched", "W": [[], [10, 11, 12]], "A": A, "foreign": foreign, "src": "empty-explicit", "share": "empty"}
+        out.append(dict(base, queries=[q_single], its=[0, 0, 0], ops=[["N", 0], ["N", 0], ["N", 1], ["N", 1], ["N", 2], ["N", 2]]))
+        out.append(dict(base, queries=[q_join], its=[0, 0], ops=[["N", 0]] * 2 + [["N", 1]] * 2))
+        out.append(dict(base, queries=[q_other, q_single], its=[0, 1, 1, 1],
+                        ops=[["N", 0], ["N", 1], ["N", 1], ["N", 0], ["N", 2], ["N", 2], ["N", 0], ["N", 3]]))
+        out.append(dict(base, queries=[q_single], its=[0, 0], ops=[["N", 0], ["N", 1], ["N", 0], ["N", 1]]))
+    # (6) one complete warm-up evaluation (all domains cached: C03_cache_warm_any_schedule says the cache cannot interfere
+    #     any more), then every interleaving of two further evaluations of the same query object / of two queries
+    W = [[10, 11, 12]]
+    W2 = [[10, 11], [20, 21]]
+    A2 = [[10, 0], [11, 1], [20, 1], [21, 2]]
+    qa = {"sel": [0], "conds": [["C", 0, "ge", 0]], "form": "entity"}
+    qb = {"sel": [0], "conds": [["C", 0, "le", 1]], "form": "set_of"}
+    qd = {"sel": [0, 1], "conds": [["V", 0, "lt", 1]], "form": "set_of"}
+    L = 6 if tier == "quick" else 9
+    for name, w, a, qs, warm_its, its in (("warm-same-object", W, A, [qa], [0], [0, 0]),
+                                          ("warm-shared-var", W, A, [qa, qb], [0, 1], [0, 1]),
+                                          ("warm-same-object-2", W2, A2, [qd], [0], [0, 0])):
+        d0 = {"W": w, "queries": qs}
+        warm_ops = []
+        for k, qi in enumerate(warm_its):
+            warm_ops += [["N", k]] * (_nexts_bound(d0, qi) + 1)
+        for n in range(1, L + 1):
+            for word in itertools.product([0, 1], repeat=n):
+                out.append({"kind": "sched", "W": w, "A": a, "queries": qs, "its": warm_its + its,
+                            "ops": warm_ops + [["N", len(warm_its) + i] for i in word], "share": name, "src": "warm-interleave"})
+    return out
+
+
+QUANT_SHAPES = ["exists", "exists_and", "exists2", "forall", "not_exists"]
 
 
 def gen_extra_cases(tier, rng) -> List[dict]:
@@ -704,7 +833,7 @@ def gen_extra_cases(tier, rng) -> List[dict]:
         W_, A_ = gen_world(rng, nvars, 3)
         shapes = []
         for _ in range(rng.randint(1, 2)):
-            k = rng.choice(["or", "not", "or2", "andnot", "rule", "truthy", "andtruthy"])
+            k = rng.choice(["or", "not", "or2", "andnot", "rule", "truthy", "andtruthy"] + QUANT_SHAPES)
             shapes.append([k, rng.randint(0, 3), rng.randint(0, 3)])
         its = [rng.randint(0, len(shapes) - 1) for _ in range(rng.randint(2, 3))]
         style = rng.choice(["random", "sequential", "sequential"])
@@ -716,7 +845,24 @@ def gen_extra_cases(tier, rng) -> List[dict]:
         else:
             for k in range(rng.randint(4, 12)):
                 ops.append(["X", rng.randint(0, len(its) - 1)] if rng.chance(0.1) else ["N", rng.randint(0, len(its) - 1)])
-        out.append({"kind": "extra", "W": W_, "A": A_, "shapes": shapes, "its": its, "ops": ops, "src": "extra-" + style})
+        warm = rng.chance(0.4) and not any(s_[0] == "rule" for s_ in shapes)
+        out.append({"kind": "extra", "W": W_, "A": A_, "shapes": shapes, "its": its, "ops": ops, "warm": warm,
+                    "src": "extra-" + style + ("-warm" if warm else "")})
+    # after one complete warm-up evaluation: every interleaving of two (three) further evaluations of the SAME query object,
+    # for every quantifier / connective shape: nested loops, lock-step and suspended-then-resumed are all among the words
+    worlds = [([[10, 11, 12], [20, 21, 22]], [[10, 0], [11, 1], [12, 2], [20, 0], [21, 1], [22, 3]]),
+              ([[10, 11], []], [[10, 1], [11, 2]])]
+    L = 6 if tier == "quick" else 8
+    for W_, A_ in worlds:
+        for k in QUANT_SHAPES + ["or", "or2", "andnot", "andtruthy"]:
+            for c in ((0, 1) if tier == "quick" else (0, 1, 2, 3)):
+                shape = [k, c, 1]
+                for nn in range(2, L + 1):
+                    for word in itertools.product([0, 1], repeat=nn):
+                        if 0 not in word or 1 not in word:
+                            continue
+                        out.append({"kind": "extra", "W": W_, "A": A_, "shapes": [shape], "its": [0, 0], "warm": True,
+                                    "ops": [["N", i] for i in word], "src": "extra-warm-interleave"})
     return out
 
 
@@ -741,10 +887,17 @@ def extra_verdict(d, impl) -> Tuple[str, Any]:
       K_rule_reeval : the iterator belongs to a rule query object that has several evaluations in the case; its rows are
                       [tag, id] with tag in {0,1} and id among the ids of its isolated rows (missing rows, or the conclusion
                       of the other, suspended evaluation)."""
-    log, iso = impl
-    if not (isinstance(log, list) and isinstance(iso, list) and len(iso) == len(d["its"])):
+    if not (isinstance(impl, list) and len(impl) >= 2 and isinstance(impl[0], list) and isinstance(impl[1], list)
+            and len(impl[1]) == len(d["its"])):
         return "violation", None
+    log, iso = impl[0], impl[1]
+    warm = impl[2] if len(impl) > 2 else []
     exp = extra_expected(d, iso)
+    if d.get("warm"):
+        # the warm-up evaluation itself must already give the isolated rows (rule shapes are not generated with warm-up)
+        for qi, rows in zip(sorted(set(d["its"])), warm):
+            if rows != iso[d["its"].index(qi)]:
+                return "violation", exp
     if log == exp:
         return "ok", exp
     n = len(d["its"])
@@ -757,7 +910,8 @@ def extra_verdict(d, impl) -> Tuple[str, Any]:
     shapes_vars = []
     for qi in d["its"]:
         s = d["shapes"][qi]
-        shapes_vars.append({0, 1} if s[0] == "or2" and len(d["W"]) > 1 else {0})
+        two = s[0] in ("or2", "exists", "exists_and", "exists2", "forall", "not_exists")
+        shapes_vars.append({0, 1} if two and len(d["W"]) > 1 else {0})
     classes = set()
     for i in range(n):
         if got[i] == want[i]:
@@ -768,13 +922,13 @@ def extra_verdict(d, impl) -> Tuple[str, Any]:
             return "violation", exp
         is_rule = d["shapes"][d["its"][i]][0] == "rule"
         if is_rule and d["its"].count(d["its"][i]) > 1:
-            ids = {r[1] for r in iso[i]}
+            ids = {r[1] for r in iso[i] if isinstance(r, list)}
             if all(len(r) == 2 and r[0] in (0, 1) and r[1] in ids for r in rows):
                 classes.add("K_rule_reeval")
                 continue
             return "violation", exp
-        overlap = _live_overlap({"its": d["its"], "ops": d["ops"]}, lambda a, b: (a == i or b == i) and bool(shapes_vars[a] & shapes_vars[b]))
-        if overlap and is_subsequence(rows, iso[i]):
+        overlap = _live_overlap({"its": d["its"], "ops": d["ops"]}, lambda a, b: (a == i or b == i) and bool(shapes_vars[a] & shapes_vars[b]), log)
+        if overlap and not d.get("warm") and is_subsequence(rows, [r for r in iso[i] if isinstance(r, list)]):
             classes.add("K_interleave")
             continue
         return "violation", exp
@@ -797,14 +951,22 @@ def run(tier: str, seed: int, replay=None) -> int:
         "part (b) is proved for the conjunctive fragment (atoms x.a op c / x.a op y.a, selected variables, one optional refinement rule) "
         "with duplicate-free domains; other node kinds are only sampled (kind 'extra')",
         "domain elements are identified by HashedValue.id_ (objects with identity semantics)",
+        "exists/for_all/or_/not_ shapes have no evaluator model here: they are compared with the implementation's own isolated result; after a "
+        "warm-up evaluation no known-finding class excuses a difference (C03_cache_warm_any_schedule: a warm cache cannot interfere; "
+        "C03_exists_local_isolated: the Exists memory is per evaluation)",
     ]
     rep.rule = ("cache: every operation word over {create,next0,next1,abandon0,abandon1} up to length 5 (quick) / 7 (thorough) after a first "
                 "create, plus seeded random schedules (<=4 handles, <=40 steps, domains 0-5 elements, 15% with a duplicate, list/generator/"
                 "tuple/iterator domains); hist: seeded random histories of 2-5 whole evaluations over 1-3 queries sharing 1-3 variables, 20% "
                 "with a refinement rule, 8% duplicate elements; sched: every word over {next0,next1} up to length 7/10 for six query pairs "
                 "(same object twice, shared variable, shared sub-expression, two-variable, disjoint), abandonment at every point (close/del) "
-                "followed by fresh iterators, nested loops (with and without break), seeded random 2-3 iterators; extra: or_/not_/rule shapes "
-                "vs the isolated result. distinct = distinct case description; non-trivial = at least one row is delivered")
+                "followed by fresh iterators, nested loops (with and without break), seeded random 2-3 iterators; EMPTY domains (empty list, and "
+                "lists that let()'s isinstance filter empties) in all three kinds: exhaustive operation words on the empty cache incl. the "
+                "truthiness of the domain at every iter(), explicit histories/schedules re-evaluating a query over a value-less variable alone "
+                "and in the outer/inner/selected-only position of a join, 12% empty domains in the random worlds; warm-up schedules: one "
+                "complete evaluation, then every word over two further iterators of the same object / a shared variable (length <=6/9); "
+                "extra: or_/not_/truthiness/rule shapes and exists/for_all/not_(exists) shapes vs the isolated result of a fresh query, incl. for "
+                "every shape all interleavings (length <=6/8) of two evaluations of the SAME query object after a complete warm-up evaluation. distinct = distinct case description; non-trivial = at least one row is delivered")
     ok_spec, log = core.coq_make(["Base/Sx.vo", "Eql/DomainCacheSpec.vo", "Eql/ReevalSpec.vo", "Eql/ReevalSpecSx.vo"])
     rep.oblige("build:spec", ok_spec, "" if ok_spec else core.first_error(log))
     model_ok = core.standard_proof_steps(rep, PROP, ["Props/C03.vo", "Eql/DomainCacheSched.vo", "Eql/ReevalCases.vo"])
@@ -889,7 +1051,7 @@ def run(tier: str, seed: int, replay=None) -> int:
             rep_ok = None
         elif kind == "sched":
             code, rep_ok = divmod(c, 10)
-            classes = sched_class(d)
+            classes = sched_class(d, impl)
         else:
             code, rep_ok, classes = c, None, hist_class(d)
         bump(f"{kind}:code{code}")
@@ -989,6 +1151,12 @@ def run(tier: str, seed: int, replay=None) -> int:
         for i in ks[:: max(1, len(ks) // 2)][:2]:
             samples.append({"case": descrs[i], "impl": impls[i]})
     rep.samples = samples
+    # report one failing case of every kind first (cache / hist / sched / extra), then fill up to five
+    seen_kinds, first, rest = set(), [], []
+    for b in bad:
+        (first if b[0]["kind"] not in seen_kinds else rest).append(b)
+        seen_kinds.add(b[0]["kind"])
+    bad = first + rest
     for d, impl, why in bad[:5]:
         model = spec = None
         if d["kind"] in MODEL_FN and model_ok:
